@@ -13,18 +13,29 @@ namespace C07
 open VP
 
 /-- What holds of every node of a reachable state. -/
-def NodeOK (st : State) (n : NodeRec) : Prop :=
+def NodeOK (st : State) (idx : Nat) (n : NodeRec) : Prop :=
   (∀ o ∈ n.outputs, ∀ pv, o.value = some pv → o.type = some pv.type ∧ conforms pv.type pv.value) ∧
   ((∃ o ∈ n.outputs, o.value.isSome = true) →
-    n.kind ≠ .argument ∧ ∀ i ∈ n.inputs, ∃ oi, st.var? i = some oi ∧ oi.value.isSome = true)
+    n.kind ≠ .argument ∧
+      ∀ i ∈ n.inputs, i.node < idx ∧ ∃ oi, st.var? i = some oi ∧ oi.value.isSome = true) ∧
+  (n.kind = .constant →
+    ∀ o ∈ n.outputs, ∀ pv, o.value = some pv → ∀ ins, n.sem ins o.key = some pv.value)
 
-def Inv (st : State) : Prop := ∀ (idx : Nat) (n : NodeRec), st[idx]? = some n → NodeOK st n
+def Inv (st : State) : Prop :=
+  ∀ (idx : Nat) (n : NodeRec), st[idx]? = some n → NodeOK st idx n
 
-theorem NodeOK.mono {st : State} {n : NodeRec} (m : NodeRec) (h : NodeOK st n) :
-    NodeOK (st ++ [m]) n :=
-  ⟨h.1, fun hv => ⟨(h.2 hv).1, fun i hi => by
-    obtain ⟨oi, h1, h2⟩ := (h.2 hv).2 i hi
-    exact ⟨oi, var?_append st m i oi h1, h2⟩⟩⟩
+theorem NodeOK.mono {st : State} {idx : Nat} {n : NodeRec} (m : NodeRec) (h : NodeOK st idx n) :
+    NodeOK (st ++ [m]) idx n :=
+  ⟨h.1, fun hv => ⟨(h.2.1 hv).1, fun i hi => by
+    obtain ⟨hlt, oi, h1, h2⟩ := (h.2.1 hv).2 i hi
+    exact ⟨hlt, oi, var?_append st m i oi h1, h2⟩⟩, h.2.2⟩
+
+theorem var?_some_lt (st : State) (r : VarRef) (o : OutVar) (h : st.var? r = some o) :
+    r.node < st.length := by
+  unfold State.var? at h
+  rcases Nat.lt_or_ge r.node st.length with h1 | h1
+  · exact h1
+  · simp [List.getElem?_eq_none h1] at h
 
 /-- The outputs of a freshly constructed node conform (from C15's `no_bad_value`). -/
 theorem fresh_outputs_ok (sel : BackendSel) (k : Kind) (ctx : NodeCtx) (b : Backend)
@@ -78,9 +89,9 @@ theorem step_inv (st st' : State) (s : Step) (hinv : Inv st) (h : step Variant.f
     simp only [step, Except.ok.injEq] at h
     subst h
     intro idx n hn
-    rcases getElem?_snoc st _ idx n hn with h1 | ⟨_, rfl⟩
+    rcases getElem?_snoc st _ idx n hn with h1 | ⟨hidx, rfl⟩
     · exact (hinv idx n h1).mono _
-    · refine ⟨?_, ?_⟩
+    · refine ⟨?_, ?_, ?_⟩
       · intro o ho pv hpv
         simp only [List.mem_singleton] at ho
         subst ho
@@ -89,21 +100,31 @@ theorem step_inv (st st' : State) (s : Step) (hinv : Inv st) (h : step Variant.f
         simp only [List.mem_singleton] at ho
         subst ho
         simp at hv
+      · intro hk; cases hk
   | constant key ty p =>
     simp only [step, Except.ok.injEq] at h
     subst h
     intro idx n hn
-    rcases getElem?_snoc st _ idx n hn with h1 | ⟨_, rfl⟩
+    rcases getElem?_snoc st _ idx n hn with h1 | ⟨hidx, rfl⟩
     · exact (hinv idx n h1).mono _
-    · refine ⟨?_, fun _ => ⟨by simp, by simp⟩⟩
-      intro o ho pv hpv
-      simp only [merge, List.map_cons, List.map_nil, List.mem_singleton] at ho
-      subst ho
-      rcases C15.mergeOne_value [(key, p)] ⟨key, ty, none⟩ pv hpv with h1 | ⟨_, h2, h3, _⟩
-      · cases h1
-      · refine ⟨by rw [(C15.mergeOne_key_type _ _ _).2]; exact h2, ?_⟩
-        cases pv with
-        | mk t q => exact C15.check_sound t q h3
+    · refine ⟨?_, fun _ => ⟨by simp, by simp⟩, ?_⟩
+      · intro o ho pv hpv
+        simp only [merge, List.map_cons, List.map_nil, List.mem_singleton] at ho
+        subst ho
+        rcases C15.mergeOne_value [(key, p)] ⟨key, ty, none⟩ pv hpv with h1 | ⟨_, h2, h3, _⟩
+        · cases h1
+        · refine ⟨by rw [(C15.mergeOne_key_type _ _ _).2]; exact h2, ?_⟩
+          cases pv with
+          | mk t q => exact C15.check_sound t q h3
+      · intro _ o ho pv hpv ins
+        simp only [merge, List.map_cons, List.map_nil, List.mem_singleton] at ho
+        subst ho
+        rcases C15.mergeOne_value [(key, p)] ⟨key, ty, none⟩ pv hpv with h1 | ⟨_, _, _, q, hq, hpq⟩
+        · cases h1
+        · simp only [dictGet, ↓reduceIte, Option.some.injEq] at hq
+          subst hq
+          rw [(C15.mergeOne_key_type _ _ _).1, hpq]
+          simp [PropValue.new, PropValue.value]
   | standard sel inputs inNames outs hasSub b sem =>
     simp only [step] at h
     split at h
@@ -118,9 +139,9 @@ theorem step_inv (st st' : State) (s : Step) (hinv : Inv st) (h : step Variant.f
         simp only [Except.ok.injEq] at h
         subst h
         intro idx n hn
-        rcases getElem?_snoc st _ idx n hn with h1 | ⟨_, rfl⟩
+        rcases getElem?_snoc st _ idx n hn with h1 | ⟨hidx, rfl⟩
         · exact (hinv idx n h1).mono _
-        · refine ⟨fresh_outputs_ok _ _ _ _ _ hres (mkCtx_fresh _ _ _ _ _), ?_⟩
+        · refine ⟨fresh_outputs_ok _ _ _ _ _ hres (mkCtx_fresh _ _ _ _ _), ?_, fun hk => by cases hk⟩
           rintro ⟨o, ho, hv⟩
           refine ⟨by simp, ?_⟩
           simp only [List.mem_map] at ho
@@ -128,7 +149,7 @@ theorem step_inv (st st' : State) (s : Step) (hinv : Inv st) (h : step Variant.f
           have hall := attached_inputs_valued _ _ _ _ _ hres (mkCtx_fresh _ _ _ _ _) ⟨ow, how, hv⟩
           intro i hi
           obtain ⟨oi, h1, h2⟩ := inputs_valued_of_ctx st inputs inNames outs hasSub hlen hex hall i hi
-          exact ⟨oi, var?_append st _ i oi h1, h2⟩
+          exact ⟨by rw [hidx]; exact var?_some_lt st i oi h1, oi, var?_append st _ i oi h1, h2⟩
   | inline sel inputs inNames gnames outs b sem =>
     simp only [step] at h
     split at h
@@ -143,9 +164,9 @@ theorem step_inv (st st' : State) (s : Step) (hinv : Inv st) (h : step Variant.f
         simp only [Except.ok.injEq] at h
         subst h
         intro idx n hn
-        rcases getElem?_snoc st _ idx n hn with h1 | ⟨_, rfl⟩
+        rcases getElem?_snoc st _ idx n hn with h1 | ⟨hidx, rfl⟩
         · exact (hinv idx n h1).mono _
-        · refine ⟨fresh_outputs_ok _ _ _ _ _ hres (mkCtx_fresh _ _ _ _ _), ?_⟩
+        · refine ⟨fresh_outputs_ok _ _ _ _ _ hres (mkCtx_fresh _ _ _ _ _), ?_, fun hk => by cases hk⟩
           rintro ⟨o, ho, hv⟩
           refine ⟨by simp, ?_⟩
           simp only [List.mem_map] at ho
@@ -153,7 +174,7 @@ theorem step_inv (st st' : State) (s : Step) (hinv : Inv st) (h : step Variant.f
           have hall := attached_inputs_valued _ _ _ _ _ hres (mkCtx_fresh _ _ _ _ _) ⟨ow, how, hv⟩
           intro i hi
           obtain ⟨oi, h1, h2⟩ := inputs_valued_of_ctx st inputs inNames outs false hlen hex hall i hi
-          exact ⟨oi, var?_append st _ i oi h1, h2⟩
+          exact ⟨by rw [hidx]; exact var?_some_lt st i oi h1, oi, var?_append st _ i oi h1, h2⟩
 
 theorem reachable_inv (st : State) (h : Reachable Variant.fixed st) : Inv st := by
   induction h with
@@ -183,8 +204,8 @@ theorem valued_step (st : State) (h : Reachable Variant.fixed st) (r : VarRef) (
   | none => simp [hn] at ho
   | some n =>
     simp only [hn] at ho
-    have := (reachable_inv st h r.node n hn).2 ⟨o, List.mem_of_getElem? ho, hv⟩
-    exact ⟨n, rfl, this.1, this.2⟩
+    have := (reachable_inv st h r.node n hn).2.1 ⟨o, List.mem_of_getElem? ho, hv⟩
+    exact ⟨n, rfl, this.1, fun i hi => (this.2 i hi).2⟩
 
 /-- **value_is_input_independent.** A Var with a propagated value has no Argument node anywhere in
     its dependency cone: by induction along the cone, every Var met on the way is itself valued,
@@ -315,6 +336,162 @@ theorem fold_correct_partial (sel : BackendSel) (ctx : NodeCtx) (names : List St
   obtain ⟨r, t, pv', h1, h2, h3, h4⟩ := mapping_correct sel ctx names vals res h hfresh hin ow how pv hpv
   exact ⟨pv'.value, hsem _ r t pv' h1 h2 h3, h4⟩
 
+/-! ### fold_correct over whole histories -/
+
+/-- The payload a Var carries (the `none` payload if it carries nothing). -/
+def payloadOf (st : State) (r : VarRef) : Payload :=
+  match (st.var? r).bind (·.value) with
+  | some pv => pv.value
+  | none => .none
+
+/-- **The hypothesis of `fold_correct`**: on every operator / inlined-model node, each value the
+    backend's result led spox to attach is the node's run-time meaning `sem` applied to the values
+    that were fed - "the backend is extensionally the run-time semantics on constant-fed singleton
+    models". (For Constant / initializer nodes nothing is assumed: that their value is the embedded
+    array is part of the invariant.) -/
+def Faithful (st : State) : Prop :=
+  ∀ (idx : Nat) (n : NodeRec), st[idx]? = some n → (n.kind = .standard ∨ n.kind = .inline) →
+    ∀ o ∈ n.outputs, ∀ pv, o.value = some pv →
+      n.sem (n.inputs.map (payloadOf st)) o.key = some pv.value
+
+theorem step_snoc (v : Variant) (st st' : State) (s : Step) (h : step v st s = .ok st') :
+    ∃ n, st' = st ++ [n] := by
+  cases s with
+  | argument key ty => simp only [step, Except.ok.injEq] at h; exact ⟨_, h.symm⟩
+  | constant key ty p => simp only [step, Except.ok.injEq] at h; exact ⟨_, h.symm⟩
+  | standard sel inputs inNames outs hasSub b sem =>
+    simp only [step] at h
+    split at h
+    · cases h
+    · split at h
+      · cases h
+      · simp only [Except.ok.injEq] at h; exact ⟨_, h.symm⟩
+  | inline sel inputs inNames gnames outs b sem =>
+    simp only [step] at h
+    split at h
+    · cases h
+    · split at h
+      · cases h
+      · simp only [Except.ok.injEq] at h; exact ⟨_, h.symm⟩
+
+theorem table_snoc (bind : Nat → Payload) (st : State) (n : NodeRec) :
+    table bind (st ++ [n]) =
+      table bind st ++ [rowOf bind (table bind st) (table bind st).length n] := by
+  simp [table, List.foldl_append]
+
+theorem var?_append_lt (st : State) (n : NodeRec) (r : VarRef) (h : r.node < st.length) :
+    State.var? (st ++ [n]) r = st.var? r := by
+  simp [State.var?, List.getElem?_append_left h]
+
+theorem payloadOf_append (st : State) (n : NodeRec) (i : VarRef) (oi : OutVar)
+    (h : st.var? i = some oi) : payloadOf (st ++ [n]) i = payloadOf st i := by
+  simp [payloadOf, var?_append st n i oi h, h]
+
+theorem Faithful.prefix {st : State} {n : NodeRec} (hr : Reachable Variant.fixed st)
+    (hf : Faithful (st ++ [n])) : Faithful st := by
+  intro idx m hm hk o ho pv hpv
+  have hlt : idx < st.length := by
+    rcases Nat.lt_or_ge idx st.length with h1 | h1
+    · exact h1
+    · simp [List.getElem?_eq_none h1] at hm
+  have hm' : (st ++ [n])[idx]? = some m := by rw [List.getElem?_append_left hlt]; exact hm
+  have := hf idx m hm' hk o ho pv hpv
+  have hok := (reachable_inv st hr idx m hm).2.1 ⟨o, ho, by simp [hpv]⟩
+  have hmap : m.inputs.map (payloadOf (st ++ [n])) = m.inputs.map (payloadOf st) := by
+    apply List.map_congr_left
+    intro i hi
+    obtain ⟨_, oi, h1, _⟩ := hok.2 i hi
+    exact payloadOf_append st n i oi h1
+  rw [hmap] at this
+  exact this
+
+theorem fold_correct_aux (bind : Nat → Payload) (st : State) (h : Reachable Variant.fixed st) :
+    Faithful st →
+      (table bind st).length = st.length ∧
+      ∀ r o pv, st.var? r = some o → o.value = some pv → denote bind st r = some pv.value := by
+  induction h with
+  | empty =>
+    intro _
+    refine ⟨rfl, ?_⟩
+    intro r o pv ho
+    simp [State.var?] at ho
+  | @step st st' s hreach hs ih =>
+    intro hf
+    obtain ⟨n, rfl⟩ := step_snoc _ _ _ s hs
+    have hreach' : Reachable Variant.fixed (st ++ [n]) := Reachable.step s hreach hs
+    obtain ⟨hlen, hvals⟩ := ih (Faithful.prefix hreach hf)
+    refine ⟨by rw [table_snoc]; simp [hlen], ?_⟩
+    intro r o pv ho hv
+    by_cases hr : r.node < st.length
+    · -- an older Var: nothing changed
+      have ho' : st.var? r = some o := by rw [← var?_append_lt st n r hr]; exact ho
+      have : denote bind (st ++ [n]) r = denote bind st r := by
+        unfold denote
+        rw [table_snoc, List.getElem?_append_left (by rw [hlen]; exact hr)]
+      rw [this]
+      exact hvals r o pv ho' hv
+    · -- a Var of the new node
+      have hlt := var?_some_lt _ r o ho
+      have hrn : r.node = st.length := by simp at hlt; omega
+      have hnode : (st ++ [n])[st.length]? = some n := by simp
+      have hout : n.outputs[r.out]? = some o := by
+        simpa [State.var?, hrn] using ho
+      have hmem : o ∈ n.outputs := List.mem_of_getElem? hout
+      have hok := reachable_inv _ hreach' st.length n hnode
+      obtain ⟨hkind, hins⟩ := hok.2.1 ⟨o, hmem, by simp [hv]⟩
+      -- the run-time values of the inputs are the values that were fed
+      have hmap : n.inputs.map (fun i =>
+            (((table bind st)[i.node]?.bind fun row => row[i.out]?).join).getD Payload.none)
+          = n.inputs.map (payloadOf (st ++ [n])) := by
+        apply List.map_congr_left
+        intro i hi
+        obtain ⟨hilt, oi, h1, h2⟩ := hins i hi
+        have h1' : st.var? i = some oi := by rw [← var?_append_lt st n i hilt]; exact h1
+        obtain ⟨pvi, hpvi⟩ := Option.isSome_iff_exists.mp h2
+        have := hvals i oi pvi h1' hpvi
+        unfold denote at this
+        rw [this]
+        simp [payloadOf, h1, hpvi]
+      have hsem : n.sem (n.inputs.map (payloadOf (st ++ [n]))) o.key = some pv.value := by
+        cases hk : n.kind with
+        | argument => exact absurd hk hkind
+        | constant => exact hok.2.2 hk o hmem pv hv _
+        | standard => exact hf st.length n hnode (Or.inl hk) o hmem pv hv
+        | inline => exact hf st.length n hnode (Or.inr hk) o hmem pv hv
+      unfold denote
+      rw [table_snoc, hrn, ← hlen]
+      simp only [List.getElem?_concat_length, Option.bind_some]
+      have hrow : rowOf bind (table bind st) (table bind st).length n
+          = n.outputs.map fun o => n.sem (n.inputs.map (payloadOf (st ++ [n]))) o.key := by
+        unfold rowOf
+        cases hk : n.kind with
+        | argument => exact absurd hk hkind
+        | constant => simp only [hmap]
+        | standard => simp only [hmap]
+        | inline => simp only [hmap]
+      rw [hrow, List.getElem?_map, hout]
+      simp [hsem]
+
+/-- **fold_correct.** For every reachable program state: *if* the backend was extensionally the
+    run-time semantics at every operator / inlined-model call (`Faithful`), *then* every Var that
+    carries a propagated value has exactly that value at run time **under every binding of the model
+    inputs** - `denote bind` evaluates the whole program node by node from the binding. (Induction
+    over the history; the fed values are run-time values by the induction hypothesis, Arguments never
+    occur below a valued Var, Constants denote their embedded array.) `denote` is this file's own
+    evaluator of histories; its agreement with the built ONNX model is C01's `valid_sound`. -/
+theorem fold_correct (bind : Nat → Payload) (st : State) (h : Reachable Variant.fixed st)
+    (hf : Faithful st) (r : VarRef) (o : OutVar) (pv : PropValue)
+    (ho : st.var? r = some o) (hv : o.value = some pv) :
+    denote bind st r = some pv.value :=
+  (fold_correct_aux bind st h hf).2 r o pv ho hv
+
+/-- The propagated value does not depend on the binding: two bindings give the same run-time value. -/
+theorem fold_binding_independent (b1 b2 : Nat → Payload) (st : State)
+    (h : Reachable Variant.fixed st) (hf : Faithful st) (r : VarRef) (o : OutVar) (pv : PropValue)
+    (ho : st.var? r = some o) (hv : o.value = some pv) :
+    denote b1 st r = denote b2 st r := by
+  rw [fold_correct b1 st h hf r o pv ho hv, fold_correct b2 st h hf r o pv ho hv]
+
 /-! ### the pinned tree -/
 
 /-- Pinned: a Sequence-typed Var ends up with a value that does not conform to its type. -/
@@ -341,5 +518,14 @@ def demo : List Step :=
     even though the (misbehaving) backend returned a result for the latter. -/
 example : (run Variant.fixed [] demo).map (fun n => n.outputs.map (·.value.isSome))
     = [[true], [false], [true], [false]] := by decide
+
+def pidOf : Option Payload → Option Nat
+  | some (.arr _ _ pid) => some pid
+  | _ => none
+
+/-- `denote` evaluates the demo program: the folded add has its value under any binding, the
+    argument-dependent add follows the binding's meaning (here `sem` ignores it). -/
+example : pidOf (denote (fun _ => .arr .i64 [2] 9) (run Variant.fixed [] demo) ⟨2, 0⟩) = some 2 ∧
+    pidOf (denote (fun _ => .arr .i64 [2] 9) (run Variant.fixed [] demo) ⟨1, 0⟩) = some 9 := by decide
 
 end C07
